@@ -118,9 +118,20 @@ def full_request(rng, i):
     method = b"GET" if kind == "get" else rng.choice([b"POST", b"PUT", b"POST"])
     head = method + b" " + path + q + b" HTTP/1." + rng.choice([b"1", b"0", b"1"]) + b"\r\nHost: " + rng.choice([b"a", b"h:80", b"[::1]:8080", b"H.", b""]) + b"\r\nX-Req: %d\r\n" % i
     for _ in range(rng.randint(0, 2)):
-        head += b"Cookie: " + rng.choice(COOKIES) + b"\r\n"
+        ck = rng.choice(COOKIES)
+        if rng.random() < 0.4:
+            ck = b"; ".join(bytes(rng.choice(b"abcXYZ09_") for _ in range(rng.randint(0, 9))) + rng.choice([b"=", b"=", b""]) + bytes(rng.choice(b"vw%=; \"") for _ in range(rng.randint(0, 17)))
+                            for _k in range(rng.randint(1, 5)))
+        head += b"Cookie: " + ck + b"\r\n"
     if rng.random() < 0.5:
-        head += b"Authorization: " + rng.choice(AUTH) + b"\r\n"
+        a = rng.choice(AUTH)
+        if rng.random() < 0.5:
+            # base64 text of every length and padding state (the decoder's buffer arithmetic depends on len mod 4), with and without a colon inside
+            B64 = b"ABCDEFGHIJKLMNOPQRSTUVWXYZabcdefghijklmnopqrstuvwxyz0123456789+/"
+            tok = base64.b64encode(bytes(rng.choice(b"ab:cd") for _ in range(rng.randint(0, 12)))).rstrip(b"=") + bytes(rng.choice(B64) for _ in range(rng.randint(0, 70)))
+            tok += rng.choice([b"", b"", b"=", b"==", b"===", b" ", b"\t x", b"*"])
+            a = rng.choice([b"Basic ", b"Basic ", b"basic  ", b"BASIC "]) + tok
+        head += b"Authorization: " + a + b"\r\n"
     body = b""
     if kind == "urlenc":
         head += b"Content-Type: application/x-www-form-urlencoded" + rng.choice([b"", b"; charset=utf-8"]) + b"\r\n"
